@@ -7,6 +7,7 @@
     - [go f()] runs the call to completion at the spawn point (one schedule);
     - only the predeclared functions and fmt verbs the runtime uses are modelled. *)
 From Goml Require Import Common.Base Sem.GoAst.
+From Goml Require Export Sem.GoConst.
 Open Scope Z_scope.
 
 Inductive val :=
@@ -66,31 +67,6 @@ Fixpoint find_fn (fs : list fn) (name : str) : option fn :=
   match fs with [] => None | f :: r => if list_eqb (f_name f) name then Some f else find_fn r name end.
 
 (* ---- integer types ---- *)
-Definition int_info (t : gty) : option (Z * bool) :=
-  match t with
-  | GInt8 => Some (8, true) | GInt16 => Some (16, true) | GInt32 => Some (32, true) | GInt64 => Some (64, true)
-  | GUint8 => Some (8, false) | GUint16 => Some (16, false) | GUint32 => Some (32, false) | GUint64 => Some (64, false)
-  | _ => None
-  end.
-
-Definition wrap (bits : Z) (sgn : bool) (z : Z) : Z :=
-  if sgn then (z + 2 ^ (bits - 1)) mod 2 ^ bits - 2 ^ (bits - 1) else z mod 2 ^ bits.
-
-Definition wrap_ty (t : gty) (z : Z) : Z :=
-  match int_info t with Some (b, s) => wrap b s z | None => z end.
-
-Fixpoint parse_digits (s : str) (acc : Z) : option Z :=
-  match s with
-  | [] => Some acc
-  | c :: r => if is_digit c then parse_digits r (10 * acc + (Z.of_N c - 48)) else None
-  end.
-Definition parse_int (s : str) : option Z :=
-  match s with
-  | 45%N :: r => match r with [] => None | _ => option_map Z.opp (parse_digits r 0) end
-  | [] => None
-  | _ => parse_digits s 0
-  end.
-
 Definition z_to_str (z : Z) : str :=
   if z <? 0 then 45%N :: dec (Z.to_N (- z)) else dec (Z.to_N z).
 
@@ -305,13 +281,14 @@ Fixpoint eval (fuel : nat) (e : expr) (rho : env) (s : state) {struct fuel} : re
         | _, _ => Stuck 4
         end
     | EBinary op l r t =>
+        match const_violation op l r t with Some w => Stuck w | None =>
         bind (a, s1) <- eval fuel l rho s;
         bind (b, s2) <- eval fuel r rho s1;
         match binop_val op (match int_info t with Some _ => t | None => match l with EVar _ lt => lt | _ => t end end) a b with
         | Ok v => Ok (v, s2)
         | Panic m _ => Panic m (out s2)
         | Stuck w => Stuck w | Unsupported w => Unsupported w | Fuel => Fuel
-        end
+        end end
     | EField obj f _ =>
         bind (v, s1) <- eval fuel obj rho s;
         let get := fun fs => match assoc_str fs f with Some w => Ok (w, s1) | None => Stuck 5 end in
